@@ -349,46 +349,129 @@ Proof.
   now apply find_task_complete with (h := h) (hk := hk) (t := t).
 Qed.
 
+(* ================================================================= one hook run *)
+
+Definition deny_failed (uid : N) : review := mkReview uid false 403 AMHookFailed [] 0 false.
+
+Definition relayed (uid : N) (x : resp) : review :=
+  match x with
+  | (allowed, msg, warnings, patch) =>
+    mkReview uid allowed (if allowed then 0 else 403)%N
+             (if allowed then AMNone else if N.eqb msg 0 then AMNone else AMHook msg)
+             warnings patch (negb (N.eqb patch 0))
+  end.
+
+(* how a HookRun task for an admission event can end: failed and without a response prop, or
+   not failed — then the process exited 0, every post-exit step went through, and the prop is
+   exactly what the response file said (nothing for an empty file) *)
+Lemma handle_run_hook_cases r :
+  (t_fail (handle_run_hook r) = true /\ t_prop (handle_run_hook r) = None)
+  \/ (t_fail (handle_run_hook r) = false /\ exit_zero r = true /\ run_completed r = true /\
+      ((file r = FEmpty /\ t_prop (handle_run_hook r) = None)
+       \/ exists a m w p, file r = FResp a m w p false /\ t_prop (handle_run_hook r) = Some (a, m, w, p))).
+Proof.
+  destruct r as [ez f mm c k].
+  destruct ez; [|left; split; reflexivity].
+  destruct mm as [| |mk [|]]; try (left; split; reflexivity);
+  (destruct f as [| |a m w p [|]]; try (left; split; reflexivity));
+  (destruct c; try (left; split; reflexivity));
+  (destruct k as [| |kk [|]]; try (left; split; reflexivity));
+  right; (split; [reflexivity|]); (split; [reflexivity|]); (split; [reflexivity|]);
+  first [left; split; reflexivity | right; exists a, m, w, p; split; reflexivity].
+Qed.
+
+(* the invariant the event handler relies on: a failed task carries no response *)
+Theorem failed_run_has_no_response r : t_fail (handle_run_hook r) = true -> t_prop (handle_run_hook r) = None.
+Proof.
+  intros H. destruct (handle_run_hook_cases r) as [[_ Hp] | (Hf & _)]; [exact Hp | rewrite Hf in H; discriminate].
+Qed.
+
+(* the converse: a run without any failure succeeds and carries the hook's verdict *)
+Lemma handle_run_hook_success r a m w p : exit_zero r = true -> run_completed r = true -> file r = FResp a m w p false ->
+  t_fail (handle_run_hook r) = false /\ t_prop (handle_run_hook r) = Some (a, m, w, p).
+Proof.
+  destruct r as [ez f mm c k]. cbn [exit_zero file]. intros -> Hc ->.
+  unfold run_completed in Hc. cbn [kpatch metrics conv] in Hc.
+  destruct k as [| |kk [|]]; try discriminate; (destruct mm as [| |mk [|]]; try discriminate);
+    (destruct c; try discriminate); split; reflexivity.
+Qed.
+
+(* every failure of the run, before or after the exit of the process, fails the task *)
+Lemma handle_run_hook_failure r : exit_zero r = false \/ run_completed r = false -> t_fail (handle_run_hook r) = true.
+Proof.
+  intros H. destruct (handle_run_hook_cases r) as [[Hf _] | (_ & He & Hc & _)]; [exact Hf|].
+  destruct H as [H | H]; [rewrite He in H | rewrite Hc in H]; discriminate.
+Qed.
+
+(* side effects: the marker metric is applied only by a run that went through entirely; the
+   marker Kubernetes operation only after Run and ParseOperations succeeded *)
+Lemma effects_cases r :
+  (t_mapplied (handle_run_hook r) = true -> t_fail (handle_run_hook r) = false /\ exists i, metrics r = MOps true i)
+  /\ (t_kapplied (handle_run_hook r) = true -> hook_run r <> None /\ exists j, kpatch r = KOps true j).
+Proof.
+  unfold handle_run_hook. destruct (hook_run r) as [o|]; [|split; intros H; discriminate].
+  destruct (kpatch r) as [| |kk [|]]; cbn [t_mapplied t_kapplied t_fail]; try (split; intros H; discriminate).
+  - destruct (metrics r) as [| |mk [|]]; cbn [t_mapplied t_kapplied t_fail]; split; intros H; try discriminate.
+    subst mk. split; [reflexivity | now eexists].
+  - split; intros H; [discriminate|]. subst kk. split; [discriminate | now eexists].
+  - destruct (metrics r) as [| |mk [|]]; cbn [t_mapplied t_kapplied t_fail]; split; intros H; try discriminate;
+      subst; (split; [first [reflexivity | discriminate] | now eexists]).
+Qed.
+
 (* ================================================================= the answer *)
+
+(* the three answers a review can get once a hook was found *)
+Lemma answer_of_task_cases uid r :
+  (answer_of_task uid (handle_run_hook r) = deny_failed uid)
+  \/ (exit_zero r = true /\ run_completed r = true /\
+      ((file r = FEmpty /\ answer_of_task uid (handle_run_hook r) = errored uid AMPropError)
+       \/ exists a m w p, file r = FResp a m w p false /\ answer_of_task uid (handle_run_hook r) = relayed uid (a, m, w, p))).
+Proof.
+  unfold answer_of_task.
+  destruct (handle_run_hook_cases r) as [[Hf Hp] | (Hf & He & Hc & [[Hfile Hp] | (a & m & w & p & Hfile & Hp)])];
+    rewrite Hf, ?Hp.
+  - left. reflexivity.
+  - right. repeat (split; [assumption|]). left. now split.
+  - right. repeat (split; [assumption|]). right. exists a, m, w, p. now split.
+Qed.
+
+Lemma admit_review_eq hooks path uid r :
+  admit_review hooks path uid r =
+  match find_task hooks (fst (detect path)) (snd (detect path)) with
+  | None => (errored uid AMNoHook, None)
+  | Some x => (answer_of_task uid (handle_run_hook r), Some x)
+  end.
+Proof.
+  unfold admit_review. destruct (detect path) as [conf id]. cbn [fst snd].
+  destruct (find_task hooks conf id) as [[h l]|]; reflexivity.
+Qed.
 
 Lemma admit_review_who hooks path uid r :
   snd (admit_review hooks path uid r) = match find_task hooks (fst (detect path)) (snd (detect path)) with
                                         | Some x => Some x | None => None end.
 Proof.
-  unfold admit_review. destruct (detect path) as [conf id]. cbn [fst snd].
-  destruct (find_task hooks conf id) as [[h l]|]; [|reflexivity].
-  destruct (exit_zero r); cbn [negb]; [|reflexivity].
-  destruct (file r) as [| |a m w p [|]]; reflexivity.
+  rewrite admit_review_eq. destruct (find_task _ _ _); reflexivity.
 Qed.
 
 Theorem fail_closed_holds hooks path b r : names_ok hooks ->
   fail_closed (model_regs hooks) path b r (fst (admit_request hooks path b r)) (snd (admit_request hooks path b r)) = true.
 Proof.
   intros Hok. unfold admit_request. destruct b as [uid| | |]; try reflexivity.
-  destruct (admit_review hooks path uid r) as [rv who] eqn:E. cbn [fst snd].
-  unfold fail_closed. cbn [allowed_of]. destruct (a_allowed rv) eqn:Ea; [|reflexivity].
-  pose proof (admit_review_who hooks path uid r) as Hwho. rewrite E in Hwho. cbn [snd] in Hwho.
-  unfold admit_review in E. destruct (detect path) as [conf id] eqn:Ed. cbn [fst snd] in Hwho.
-  destruct (find_task hooks conf id) as [[h [t n]]|] eqn:Ef.
-  - subst who. assert (existsb (ran_is (Some (h, (t, n)))) (registrars (model_regs hooks) path) = true) as ->.
-    { apply found_is_registrar; [assumption|]. rewrite Ed. exact Ef. }
-    destruct (exit_zero r); cbn [negb] in E.
-    + destruct (file r) as [| |a m w p [|]]; inversion E; subst rv; cbn [a_allowed] in Ea; try discriminate.
-      subst a. reflexivity.
-    + inversion E; subst rv; discriminate.
-  - inversion E; subst rv; discriminate.
+  rewrite admit_review_eq.
+  destruct (find_task hooks (fst (detect path)) (snd (detect path))) as [[h [t n]]|] eqn:Ef; [|reflexivity].
+  cbn [fst snd]. unfold fail_closed. cbn [allowed_of].
+  rewrite (found_is_registrar hooks path h t n Hok Ef).
+  destruct (answer_of_task_cases uid r) as [-> | (He & Hc & [[Hfile ->] | (a & m & w & p & Hfile & ->)])]; try reflexivity.
+  cbn [relayed a_allowed]. destruct a; [|reflexivity].
+  rewrite He, Hc, Hfile. reflexivity.
 Qed.
 
 Theorem uid_echo_holds hooks path b r : uid_echo b (fst (admit_request hooks path b r)) = true.
 Proof.
   unfold admit_request. destruct b as [uid| | |]; try reflexivity.
-  destruct (admit_review hooks path uid r) as [rv who] eqn:E. cbn [fst uid_echo].
-  unfold admit_review in E. destruct (detect path) as [conf id].
-  destruct (find_task hooks conf id) as [[h l]|].
-  - destruct (exit_zero r); cbn [negb] in E.
-    + destruct (file r) as [| |a m w p [|]]; inversion E; subst rv; apply N.eqb_refl.
-    + inversion E; subst rv; apply N.eqb_refl.
-  - inversion E; subst rv; apply N.eqb_refl.
+  rewrite admit_review_eq.
+  destruct (find_task hooks (fst (detect path)) (snd (detect path))) as [x|]; cbn [fst uid_echo]; [|apply N.eqb_refl].
+  destruct (answer_of_task_cases uid r) as [-> | (_ & _ & [[_ ->] | (a & m & w & p & _ & ->)])]; apply N.eqb_refl.
 Qed.
 
 Theorem bad_body_refused_holds hooks path b r : bad_body_refused b (fst (admit_request hooks path b r)) = true.
@@ -399,14 +482,10 @@ Qed.
 Theorem patchtype_iff_patch_holds hooks path b r : patchtype_iff_patch (fst (admit_request hooks path b r)) = true.
 Proof.
   unfold admit_request. destruct b as [uid| | |]; try reflexivity.
-  destruct (admit_review hooks path uid r) as [rv who] eqn:E. cbn [fst patchtype_iff_patch].
-  unfold admit_review in E. destruct (detect path) as [conf id].
-  destruct (find_task hooks conf id) as [[h l]|].
-  - destruct (exit_zero r); cbn [negb] in E.
-    + destruct (file r) as [| |a m w p [|]]; inversion E; subst rv; cbn; try reflexivity.
-      destruct (N.eqb p 0); reflexivity.
-    + inversion E; subst rv; reflexivity.
-  - inversion E; subst rv; reflexivity.
+  rewrite admit_review_eq.
+  destruct (find_task hooks (fst (detect path)) (snd (detect path))) as [x|]; cbn [fst patchtype_iff_patch]; [|reflexivity].
+  destruct (answer_of_task_cases uid r) as [-> | (_ & _ & [[_ ->] | (a & m & w & p & _ & ->)])]; try reflexivity.
+  cbn [relayed a_patchtype a_patch]. destruct (N.eqb p 0); reflexivity.
 Qed.
 
 Lemma nobody_ran l : existsb (ran_is None) l = false.
@@ -416,15 +495,14 @@ Theorem relay_holds hooks path b r :
   relay (model_regs hooks) path r (fst (admit_request hooks path b r)) (snd (admit_request hooks path b r)) = true.
 Proof.
   unfold admit_request. destruct b as [uid| | |]; try reflexivity.
-  destruct (admit_review hooks path uid r) as [rv who] eqn:E. cbn [fst snd]. unfold relay.
-  destruct (valid_response (file r)) as [[[[al m] w] p]|] eqn:Ev; [|reflexivity].
-  destruct (exit_zero r) eqn:Ex; [|reflexivity]. cbn [andb].
-  unfold admit_review in E. destruct (detect path) as [conf id].
-  destruct (file r) as [| |a m' w' p' [|]] eqn:Ef; cbn [valid_response] in Ev; try discriminate.
-  inversion Ev; subst a m' w' p'.
-  destruct (find_task hooks conf id) as [[h [t n]]|].
-  - rewrite Ex in E. cbn [negb] in E. inversion E; subst rv who.
+  rewrite admit_review_eq. unfold relay.
+  destruct (find_task hooks (fst (detect path)) (snd (detect path))) as [[h [t n]]|]; cbn [fst snd].
+  - destruct (valid_response (file r)) as [[[[al m] w] p]|] eqn:Ev; [|reflexivity].
+    destruct (exit_zero r) eqn:Ex; [|reflexivity]. destruct (run_completed r) eqn:Ec; [|reflexivity]. cbn [andb].
     destruct (existsb _ _); [|reflexivity].
+    destruct (file r) as [| |a m' w' p' [|]] eqn:Ef; cbn [valid_response] in Ev; try discriminate.
+    inversion Ev; subst a m' w' p'.
+    unfold answer_of_task. destruct (handle_run_hook_success r al m w p Ex Ec Ef) as [-> ->].
     cbn [a_allowed a_warnings a_msg a_patch a_patchtype].
     assert (list_eqb N.eqb w w = true) as -> by (apply list_eqb_refl, N.eqb_refl).
     rewrite Bool.eqb_reflx. cbn [andb].
@@ -433,7 +511,8 @@ Proof.
                   | AMHook m' => N.eqb m' m | _ => false end) = true) as ->.
     { destruct al; [reflexivity|]. destruct (N.eqb m 0); [reflexivity | apply N.eqb_refl]. }
     cbn [andb]. destruct t; [reflexivity|]. now rewrite N.eqb_refl, Bool.eqb_reflx.
-  - inversion E; subst rv who. now rewrite nobody_ran.
+  - destruct (valid_response (file r)) as [[[[al m] w] p]|]; [|reflexivity].
+    rewrite nobody_ran, Bool.andb_false_r. reflexivity.
 Qed.
 
 Theorem routed_holds hooks path b r : names_ok hooks ->
@@ -495,14 +574,76 @@ Theorem fail_closed_explicit hooks path b r : names_ok hooks ->
   (exists uid, b = BReview uid)
   /\ (exists g, In g (registrars (model_regs hooks) path) /\ ran_is (snd (admit_request hooks path b r)) g = true)
   /\ exit_zero r = true
-  /\ exists m w p, file r = FResp true m w p false.
+  /\ (exists m w p, file r = FResp true m w p false)
+  /\ run_completed r = true.
 Proof.
   intros Hok Ha. pose proof (fail_closed_holds hooks path b r Hok) as H. unfold fail_closed in H. rewrite Ha in H.
+  apply andb_true_iff in H. destruct H as [H H5].
   apply andb_true_iff in H. destruct H as [H H4]. apply andb_true_iff in H. destruct H as [H H3].
-  apply andb_true_iff in H. destruct H as [H1 H2]. repeat split.
+  apply andb_true_iff in H. destruct H as [H1 H2]. split; [|split; [|split; [|split]]].
   - destruct b; try discriminate. now eexists.
   - apply existsb_exists in H2. destruct H2 as (g & Hg & Hr). now exists g.
   - exact H3.
   - destruct (file r) as [| |a m w p [|]]; cbn [valid_response] in H4; try discriminate.
     destruct a; [|discriminate]. now exists m, w, p.
+  - exact H5.
+Qed.
+
+(* a run that failed — the process exited non-zero, or any step after its exit failed: a
+   Kubernetes operation that cannot be parsed or is rejected, metrics that cannot be parsed or
+   are invalid, an undecodable conversion response — is answered, whatever the response file
+   says, with the denial 403 "Hook failed" under the request's UID *)
+Theorem failed_run_denied hooks path uid r :
+  exit_zero r = false \/ run_completed r = false ->
+  snd (admit_request hooks path (BReview uid) r) <> None ->
+  fst (admit_request hooks path (BReview uid) r) = AReview (deny_failed uid).
+Proof.
+  intros Hfail Hran. unfold admit_request in *. rewrite admit_review_eq in *.
+  destruct (find_task hooks (fst (detect path)) (snd (detect path))) as [x|]; cbn [fst snd] in *; [|now contradiction Hran].
+  unfold answer_of_task. now rewrite (handle_run_hook_failure r Hfail).
+Qed.
+
+Theorem failed_run_not_allowed hooks path b r :
+  exit_zero r = false \/ run_completed r = false ->
+  allowed_of (fst (admit_request hooks path b r)) = false.
+Proof.
+  intros Hfail. unfold admit_request. destruct b as [uid| | |]; try reflexivity.
+  rewrite admit_review_eq.
+  destruct (find_task hooks (fst (detect path)) (snd (detect path))) as [x|]; cbn [fst allowed_of]; [|reflexivity].
+  unfold answer_of_task. now rewrite (handle_run_hook_failure r Hfail).
+Qed.
+
+(* what an exchange does besides answering: the marker metric is applied only when the answer
+   is the hook's own verdict (the whole run went through); the marker Kubernetes operation
+   only when the process exited 0 and all its files could be parsed, and then even if a later
+   step fails (operations are applied before metrics, metrics before the response is saved) *)
+Theorem effects_sound hooks path b r :
+  (snd (admit_effects hooks path b r) = true ->
+     exit_zero r = true /\ run_completed r = true /\ (exists i, metrics r = MOps true i)
+     /\ snd (admit_request hooks path b r) <> None)
+  /\ (fst (admit_effects hooks path b r) = true ->
+     exit_zero r = true /\ (exists j, kpatch r = KOps true j) /\ snd (admit_request hooks path b r) <> None).
+Proof.
+  unfold admit_effects, admit_request. destruct b as [uid| | |]; try (split; intros H; discriminate).
+  rewrite admit_review_eq. destruct (detect path) as [conf id]. cbn [fst snd].
+  destruct (find_task hooks conf id) as [x|]; cbn [fst snd]; [|split; intros H; discriminate].
+  destruct (effects_cases r) as [Hm Hk]. split; intros H.
+  - destruct (Hm H) as [Hf Hi].
+    destruct (handle_run_hook_cases r) as [[Hf' _] | (_ & He & Hc & _)]; [rewrite Hf in Hf'; discriminate|].
+    repeat (split; [assumption|]). discriminate.
+  - destruct (Hk H) as [Hr Hj]. split; [|split; [assumption | discriminate]].
+    unfold hook_run in Hr. destruct (exit_zero r); [reflexivity | now contradiction Hr].
+Qed.
+
+Theorem kube_operations_before_metrics : forall hooks path b r kk mk,
+  snd (admit_request hooks path b r) <> None -> hook_run r <> None ->
+  kpatch r = KOps kk false -> metrics r = MOps mk true ->
+  admit_effects hooks path b r = (kk, false) /\ allowed_of (fst (admit_request hooks path b r)) = false.
+Proof.
+  intros hooks path b r kk mk Hran Hrun Hk Hm. split.
+  - unfold admit_effects, admit_request in *. destruct b as [uid| | |]; try now contradiction Hran.
+    rewrite admit_review_eq in Hran. destruct (detect path) as [conf id]. cbn [fst snd] in Hran.
+    destruct (find_task hooks conf id) as [x|]; [|now contradiction Hran].
+    unfold handle_run_hook. destruct (hook_run r); [|now contradiction Hrun]. rewrite Hk, Hm. reflexivity.
+  - apply failed_run_not_allowed. right. unfold run_completed. rewrite Hk, Hm. reflexivity.
 Qed.
